@@ -42,6 +42,17 @@ lock = threading.Lock()
 queue = list(ids)
 print('%d changes on %d lanes' % (len(ids), args.lanes), flush=True)
 
+def save(update):
+    # several lanematrix processes may run at once: re-read, update one entry, write back, under a file lock
+    import fcntl
+    with open(resfile + '.lock', 'w') as lf:
+        fcntl.flock(lf, fcntl.LOCK_EX)
+        try: cur = json.load(open(resfile))
+        except Exception: cur = {} if args.neutral else {'seeded': {}, 'fixes': {}}
+        update(cur)
+        json.dump(cur, open(resfile + '.tmp', 'w'), indent=1)
+        os.replace(resfile + '.tmp', resfile)
+
 def run_check(verif, env, cid):
     rc, out = sh('./check %s --tier quick' % cid, verif, env=env)
     keys = re.findall(r'^\s+key: (.*)$', out, re.M)
@@ -77,7 +88,7 @@ def lane(i):
                     r['alarms'].append({'check': c, 'rc': x['rc'], 'keys': x['keys'][:5], 'tail': x['tail']})
             with lock:
                 res[d] = r
-                json.dump(res, open(resfile, 'w'), indent=1)
+                save(lambda cur: cur.__setitem__(d, r))
                 print(d, 'SILENT' if not r['alarms'] else 'ALARM ' + str([(a['check'], a['rc'], a['keys'][:2]) for a in r['alarms']]), flush=True)
         else:
             r = run_check(verif, env, pid); r.pop('tail')
@@ -91,7 +102,7 @@ def lane(i):
             r['summary'] = meta.get('summary', '')[:300]; r['property'] = pid
             with lock:
                 res['seeded'][d] = r
-                json.dump(res, open(resfile, 'w'), indent=1)
+                save(lambda cur: cur.setdefault('seeded', {}).__setitem__(d, r))
                 print(d, pid, 'CAUGHT' if r['caught'] else ('MISSED by own check; caught by %s %s' % (r.get('caught_by_other'), r.get('other_keys')) if r.get('caught_by_other') else 'MISSED rc=%s' % r['rc']), r['keys'][:2], flush=True)
     sh('git checkout -q -- . && git clean -fdq', repo)
     subprocess.run('git -C /repo worktree remove --force %s; rm -rf %s' % (repo, root), shell=True)
